@@ -4,11 +4,14 @@
     specification defines (theorem C01, restated here), so a difference from the interpreter is a difference from the
     ISA; (2) the logic of the JIT that is independent of instruction encodings: the register map is injective and avoids
     the scratch registers, and on every accepted program each recorded jump / call target is an instruction start inside
-    the table resolve_jumps indexes.  The per-opcode emission is exercised by checks/C03.py (every opcode x every register
+    the table resolve_jumps indexes; (3) the x86-64 encoders (emit_alu*, emit_mov, emit_push/pop, emit_load, emit_store,
+    emit_load_imm with REX / ModRM / displacement selection) append exactly the bytes of the encoding specification X86Enc.v
+    for every register, displacement and immediate.  Which encoder calls jit_compile makes for each eBPF opcode, and what the
+    CPU does with the bytes, is exercised by checks/C03.py (every opcode x every register
     pair x boundary immediates / displacements x control-flow shapes x 4 VM kinds) against the interpreter. *)
 From Coq Require Import ZArith List.
-From RbpfV Require Import MachInt Ebpf WellFormed Verifier JitLogicProofs.
-From RbpfV.gen Require Import JitLogic.
+From RbpfV Require Import MachInt Ebpf WellFormed Verifier JitLogicProofs X86Enc JitEncProofs.
+From RbpfV.gen Require Import JitLogic JitEnc.
 Import ListNotations.
 Open Scope Z_scope.
 
@@ -27,6 +30,44 @@ Theorem C03_call_targets : forall p, bytes_ok p -> acc p -> forall k,
   exists t, gen_jit_call_target k (insn_at p k) = Ok t /\ In t (starts p) /\ 0 <= gen_jit_resolve_index t < nslots p + 1.
 Proof. exact jit_call_targets_in_range. Qed.
 
+(** the x86-64 encoders of jit.rs (regenerated) append exactly the bytes of the encoding specification X86Enc.v:
+    register-direct ALU forms, with immediates, mov, push / pop, loads and stores of every width with every base / value
+    register and every 32-bit displacement (mod 00 / disp8 / disp32 selection, rbp / r13 needing a displacement), mov imm64 *)
+Theorem C03_enc_alu : forall mem w op reg rm, In w [0; 1] -> 0 <= op < 256 -> 0 <= reg < 16 -> 0 <= rm < 16 ->
+  (if w =? 1 then gen_emit_alu64 mem op reg rm else gen_emit_alu32 mem op reg rm) = Ok (mem ++ x_alu w op reg rm).
+Proof. exact emit_alu_spec. Qed.
+Theorem C03_enc_alu64_imm32 : forall mem op ext rm imm, 0 <= op < 256 -> 0 <= ext < 16 -> 0 <= rm < 16 ->
+  gen_emit_alu64_imm32 mem op ext rm imm = Ok (mem ++ x_alu 1 op ext rm ++ le_bytes 4 (imm mod 2 ^ 32)).
+Proof. exact emit_alu64_imm32_spec. Qed.
+Theorem C03_enc_alu32_imm32 : forall mem op ext rm imm, 0 <= op < 256 -> 0 <= ext < 16 -> 0 <= rm < 16 ->
+  gen_emit_alu32_imm32 mem op ext rm imm = Ok (mem ++ x_alu 0 op ext rm ++ le_bytes 4 (imm mod 2 ^ 32)).
+Proof. exact emit_alu32_imm32_spec. Qed.
+Theorem C03_enc_mov : forall mem src dst, 0 <= src < 16 -> 0 <= dst < 16 -> gen_emit_mov mem src dst = Ok (mem ++ x_alu 1 137 src dst).
+Proof. exact emit_mov_spec. Qed.
+Theorem C03_enc_push_pop : forall mem r, 0 <= r < 16 ->
+  gen_emit_push mem r = Ok (mem ++ x_push r) /\ gen_emit_pop mem r = Ok (mem ++ x_pop r).
+Proof. exact emit_push_pop_spec. Qed.
+Theorem C03_enc_load : forall mem size base reg d, In size [8; 16; 32; 64] -> 0 <= base < 16 -> 0 <= reg < 16 -> - 2 ^ 31 <= d < 2 ^ 31 ->
+  gen_emit_load mem size base reg d = Ok (mem ++ x_load size base reg d).
+Proof. exact emit_load_spec. Qed.
+Theorem C03_enc_store : forall mem size reg base d, In size [8; 16; 32; 64] -> 0 <= reg < 16 -> 0 <= base < 16 -> - 2 ^ 31 <= d < 2 ^ 31 ->
+  gen_emit_store mem size reg base d = Ok (mem ++ x_store size reg base d).
+Proof. exact emit_store_spec. Qed.
+Theorem C03_enc_load_imm : forall mem r imm, 0 <= r < 16 -> - 2 ^ 63 <= imm < 2 ^ 63 ->
+  gen_emit_load_imm mem r imm = Ok (mem ++ x_load_imm r imm).
+Proof. exact emit_load_imm_spec. Qed.
+
+(** non-vacuity: `mov rbx, [r13+0]` needs a displacement byte; `mov [rdi-129], r9d` takes the 4-byte form *)
+Example C03_enc_example :
+  gen_emit_load [] 64 13 3 0 = Ok [0x49; 0x8b; 0x5d; 0x00] /\
+  gen_emit_store [] 32 9 7 (-129) = Ok [0x44; 0x89; 0x8f; 0x7f; 0xff; 0xff; 0xff] /\
+  gen_emit_load [] 8 7 0 127 = Ok [0x0f; 0xb6; 0x47; 0x7f] /\ gen_emit_load [] 8 7 0 128 = Ok [0x0f; 0xb6; 0x87; 0x80; 0; 0; 0].
+Proof. vm_compute. repeat split. Qed.
+
 Print Assumptions C03_register_map.
+Print Assumptions C03_enc_alu.
+Print Assumptions C03_enc_load.
+Print Assumptions C03_enc_store.
+Print Assumptions C03_enc_load_imm.
 Print Assumptions C03_jump_targets.
 Print Assumptions C03_call_targets.
